@@ -322,6 +322,9 @@ Record cinv (c : ctrl) : Prop := mkCinv {
   ci_cl_keys : keys_nodup (c_cl c);
   ci_le_pos : forall k, In k (c_le c) -> 1 <= k_handle k;
   ci_cl_nonneg : forall k, In k (c_cl c) -> 0 <= k_handle k;
+  ci_sco_keys : keys_nodup (c_sco c);
+  ci_sco_nonneg : forall k, In k (c_sco c) -> 0 <= k_handle k;
+  ci_cis_pos : forall x, In x (c_cis c) -> 1 <= cis_handle x;
   ci_distinct : forall h, h <> 0 -> (count h (handles c) <= 1)%nat
 }.
 
@@ -331,7 +334,10 @@ Proof.
   intros; unfold handles; simpl; lia.
 Qed.
 
-(* adding / replacing an LE entry with a freshly allocated handle *)
+Ltac split_counts H := unfold handles in H; simpl in H; rewrite ?count_app in H.
+
+(* adding / replacing an entry of one of the three connection tables with a freshly allocated
+   handle (or, for tables that allow it, the placeholder 0) *)
 Lemma cinv_set_le : forall c k h, cinv c -> alloc c = Some h -> k_handle k = h ->
   cinv (set_le c (tbl_set (c_le c) k)).
 Proof.
@@ -339,12 +345,11 @@ Proof.
   constructor; simpl; auto.
   - now apply tbl_set_nodup.
   - intros x Hx. apply tbl_set_in_weak in Hx. destruct Hx as [->|Hx]; [lia | auto].
-  - intros h0 Hh0. unfold handles in *. simpl. rewrite count_app. specialize (ci_distinct0 h0 Hh0).
-    rewrite count_app in ci_distinct0. pose proof (count_set (c_le c) k h0) as Hs.
+  - intros h0 Hh0. specialize (ci_distinct0 h0 Hh0). unfold handles in *. simpl. rewrite ?count_app in *.
+    pose proof (count_set (c_le c) k h0) as Hs.
     destruct (k_handle k =? h0) eqn:E; [|lia].
     apply Z.eqb_eq in E. subst h0. rewrite Hk in *.
-    assert (count h (map k_handle (c_le c) ++ map k_handle (c_cl c)) = O) by now apply count_zero_notin.
-    rewrite count_app in H. lia.
+    pose proof (count_zero_notin _ _ Hfresh) as H0. rewrite ?count_app in H0. lia.
 Qed.
 
 Lemma cinv_set_cl : forall c k, cinv c -> (k_handle k = 0 \/ alloc c = Some (k_handle k)) ->
@@ -355,13 +360,28 @@ Proof.
   - now apply tbl_set_nodup.
   - intros x Hx. apply tbl_set_in_weak in Hx. destruct Hx as [->|Hx]; [|auto].
     destruct Hk as [->|Ha]; [lia|]. apply alloc_spec in Ha. lia.
-  - intros h0 Hh0. unfold handles in *. simpl. rewrite count_app. specialize (ci_distinct0 h0 Hh0).
-    rewrite count_app in ci_distinct0. pose proof (count_set (c_cl c) k h0) as Hs.
+  - intros h0 Hh0. specialize (ci_distinct0 h0 Hh0). unfold handles in *. simpl. rewrite ?count_app in *.
+    pose proof (count_set (c_cl c) k h0) as Hs.
     destruct (k_handle k =? h0) eqn:E; [|lia].
     apply Z.eqb_eq in E. subst h0. destruct Hk as [Hz|Ha]; [congruence|].
     apply alloc_spec in Ha. destruct Ha as [Hfresh _].
-    assert (count (k_handle k) (map k_handle (c_le c) ++ map k_handle (c_cl c)) = O) by now apply count_zero_notin.
-    rewrite count_app in H. lia.
+    pose proof (count_zero_notin _ _ Hfresh) as H0. unfold handles in H0. rewrite ?count_app in H0. lia.
+Qed.
+
+Lemma cinv_set_sco : forall c k, cinv c -> (k_handle k = 0 \/ alloc c = Some (k_handle k)) ->
+  cinv (set_sco c (tbl_set (c_sco c) k)).
+Proof.
+  intros c k I Hk. destruct I.
+  constructor; simpl; auto.
+  - now apply tbl_set_nodup.
+  - intros x Hx. apply tbl_set_in_weak in Hx. destruct Hx as [->|Hx]; [|auto].
+    destruct Hk as [->|Ha]; [lia|]. apply alloc_spec in Ha. lia.
+  - intros h0 Hh0. specialize (ci_distinct0 h0 Hh0). unfold handles in *. simpl. rewrite ?count_app in *.
+    pose proof (count_set (c_sco c) k h0) as Hs.
+    destruct (k_handle k =? h0) eqn:E; [|lia].
+    apply Z.eqb_eq in E. subst h0. destruct Hk as [Hz|Ha]; [congruence|].
+    apply alloc_spec in Ha. destruct Ha as [Hfresh _].
+    pose proof (count_zero_notin _ _ Hfresh) as H0. unfold handles in H0. rewrite ?count_app in H0. lia.
 Qed.
 
 Lemma cinv_del_le : forall c p, cinv c -> cinv (set_le c (tbl_del (c_le c) p)).
@@ -369,8 +389,8 @@ Proof.
   intros c p I. destruct I. constructor; simpl; auto.
   - now apply tbl_del_nodup.
   - intros x Hx. apply tbl_del_in in Hx. auto.
-  - intros h0 Hh0. unfold handles in *. simpl. rewrite count_app. specialize (ci_distinct0 h0 Hh0).
-    rewrite count_app in ci_distinct0. pose proof (count_del (c_le c) p h0). lia.
+  - intros h0 Hh0. specialize (ci_distinct0 h0 Hh0). unfold handles in *. simpl. rewrite ?count_app in *.
+    pose proof (count_del (c_le c) p h0). lia.
 Qed.
 
 Lemma cinv_del_cl : forall c p, cinv c -> cinv (set_cl c (tbl_del (c_cl c) p)).
@@ -378,23 +398,77 @@ Proof.
   intros c p I. destruct I. constructor; simpl; auto.
   - now apply tbl_del_nodup.
   - intros x Hx. apply tbl_del_in in Hx. auto.
-  - intros h0 Hh0. unfold handles in *. simpl. rewrite count_app. specialize (ci_distinct0 h0 Hh0).
-    rewrite count_app in ci_distinct0. pose proof (count_del (c_cl c) p h0). lia.
+  - intros h0 Hh0. specialize (ci_distinct0 h0 Hh0). unfold handles in *. simpl. rewrite ?count_app in *.
+    pose proof (count_del (c_cl c) p h0). lia.
 Qed.
 
-(* updates that leave both tables alone *)
-Lemma cinv_same_tables : forall c c', c_le c' = c_le c -> c_cl c' = c_cl c -> cinv c -> cinv c'.
+Lemma cinv_del_sco : forall c p, cinv c -> cinv (set_sco c (tbl_del (c_sco c) p)).
 Proof.
-  intros c c' H1 H2 I. destruct I. constructor; unfold handles in *; rewrite ?H1, ?H2; auto.
+  intros c p I. destruct I. constructor; simpl; auto.
+  - now apply tbl_del_nodup.
+  - intros x Hx. apply tbl_del_in in Hx. auto.
+  - intros h0 Hh0. specialize (ci_distinct0 h0 Hh0). unfold handles in *. simpl. rewrite ?count_app in *.
+    pose proof (count_del (c_sco c) p h0). lia.
 Qed.
 
-Ltac same_tables := (eapply cinv_same_tables; [| | eassumption]; reflexivity).
+(* CIS links: removing a CIG, adding a CIS with a fresh handle *)
+Lemma count_filter_le : forall (f : Z * Z * Z -> bool) l h,
+  (count h (map cis_handle (filter f l)) <= count h (map cis_handle l))%nat.
+Proof.
+  induction l as [|x l IH]; simpl; intros h; [lia|]. specialize (IH h).
+  destruct (f x); simpl; lia.
+Qed.
+
+Lemma cinv_cis_filter : forall c f, cinv c -> cinv (set_cis c (filter f (c_cis c))).
+Proof.
+  intros c f I. destruct I. constructor; simpl; auto.
+  - intros x Hx. apply filter_In in Hx. destruct Hx. auto.
+  - intros h0 Hh0. specialize (ci_distinct0 h0 Hh0). unfold handles in *. simpl. rewrite ?count_app in *.
+    pose proof (count_filter_le f (c_cis c) h0). lia.
+Qed.
+
+Lemma cinv_cis_add : forall c h cig x, cinv c -> alloc c = Some h -> cinv (set_cis c (c_cis c ++ [(h, cig, x)])).
+Proof.
+  intros c h cig x I Ha. apply alloc_spec in Ha. destruct Ha as [Hfresh [Hr _]]. destruct I.
+  constructor; simpl; auto.
+  - intros y Hy. apply in_app_or in Hy. destruct Hy as [Hy|[<-|[]]]; [auto|]. unfold cis_handle. simpl. lia.
+  - intros h0 Hh0. specialize (ci_distinct0 h0 Hh0). unfold handles in *. simpl. rewrite map_app, ?count_app in *.
+    simpl. unfold cis_handle at 2. simpl.
+    destruct (h =? h0) eqn:E; [|lia].
+    apply Z.eqb_eq in E. subst h0.
+    pose proof (count_zero_notin _ _ Hfresh) as H0. rewrite ?count_app in H0. lia.
+Qed.
+
+Lemma cinv_add_cis : forall cis c cig c' hs ok, cinv c -> add_cis c cig cis = (c', hs, ok) -> cinv c'.
+Proof.
+  induction cis as [|x cis IH]; simpl; intros c cig c' hs ok I H.
+  - inversion H; subst. assumption.
+  - destruct (alloc c) as [h|] eqn:Ha; [|inversion H; subst; assumption].
+    destruct (add_cis (set_cis c (c_cis c ++ [(h, cig, x)])) cig cis) as [[c1 hs1] ok1] eqn:Hr.
+    inversion H; subst. eapply IH; [|exact Hr]. now apply cinv_cis_add.
+Qed.
+
+(* updates that leave all link tables alone *)
+Lemma cinv_same_tables : forall c c', c_le c' = c_le c -> c_cl c' = c_cl c -> c_sco c' = c_sco c ->
+  c_cis c' = c_cis c -> cinv c -> cinv c'.
+Proof.
+  intros c c' H1 H2 H3 H4 I. destruct I. constructor; unfold handles in *; rewrite ?H1, ?H2, ?H3, ?H4; auto.
+Qed.
+
+Ltac same_tables := (eapply cinv_same_tables; [| | | | eassumption]; reflexivity).
 
 Lemma cinv_classic_complete : forall c p c' e, cinv c -> classic_complete c p = (c', e) -> cinv c'.
 Proof.
   unfold classic_complete. intros c p c' e I H.
   destruct (alloc c) as [h|] eqn:Ha; [|inversion H; subst; assumption].
   destruct (tbl_get (c_cl c) p) as [k|]; inversion H; subst; apply cinv_set_cl; auto.
+Qed.
+
+Lemma cinv_sco_complete : forall c p c' e, cinv c -> sco_complete c p = (c', e) -> cinv c'.
+Proof.
+  unfold sco_complete. intros c p c' e I H.
+  destruct (alloc c) as [h|] eqn:Ha; inversion H; subst; [|assumption].
+  apply cinv_set_sco; auto.
 Qed.
 
 Lemma cinv_message : forall n j c m c' e o, cinv c -> on_message n j c m = (c', e, o) -> cinv c'.
@@ -408,16 +482,16 @@ Proof.
     destruct (alloc c) as [h|] eqn:Ha; [|inversion H; subst; assumption].
     inversion H; subst.
     eapply cinv_same_tables with (c := set_le c (tbl_set (c_le c) (mkConn adv (if own then c_public c else c_random c) h true)));
-      [reflexivity | reflexivity |]. eapply cinv_set_le; eauto.
+      [reflexivity | reflexivity | reflexivity | reflexivity |]. eapply cinv_set_le; eauto.
   - (* MConnInd *) unfold on_connect_ind in H.
     destruct (andb (leg_address c =? adv) (c_leg_enabled c)).
     + destruct (alloc c) as [h|] eqn:Ha; [|inversion H; subst; assumption]. inversion H; subst.
       eapply cinv_same_tables with (c := set_le c (tbl_set (c_le c) (mkConn init adv h false)));
-        [reflexivity | reflexivity |]. eapply cinv_set_le; eauto.
+        [reflexivity | reflexivity | reflexivity | reflexivity |]. eapply cinv_set_le; eauto.
     + destruct (find_set c (c_sets c) adv); [|inversion H; subst; assumption].
       destruct (alloc c) as [h|] eqn:Ha; [|inversion H; subst; assumption]. inversion H; subst.
       eapply cinv_same_tables with (c := set_le c (tbl_set (c_le c) (mkConn init adv h false)));
-        [reflexivity | reflexivity |]. eapply cinv_set_le; eauto.
+        [reflexivity | reflexivity | reflexivity | reflexivity |]. eapply cinv_set_le; eauto.
   - (* MTerm *) unfold on_terminate in H.
     destruct (tbl_get (c_le c) sender); inversion H; subst; [now apply cinv_del_le | assumption].
   - (* MAcl *) unfold on_acl in H.
@@ -429,6 +503,23 @@ Proof.
     inversion H; subst. eapply cinv_classic_complete; [|eassumption]. same_tables.
   - (* MLmpDetach *) unfold on_lmp_detach in H.
     destruct (tbl_get (c_cl c) sender); inversion H; subst; [now apply cinv_del_cl | assumption].
+  - (* MLmpEscoReq *) unfold on_lmp_esco_req in H. inversion H; subst. apply cinv_set_sco; auto.
+  - (* MLmpAcceptedEsco *) unfold on_lmp_accepted_esco in H.
+    destruct (lmp_get (c_lmp_sco c) sender) as [[|]|]; try (inversion H; subst; assumption).
+    destruct (sco_complete (set_lmp_sco c (lmp_set (c_lmp_sco c) sender true)) sender) as [c1 e1] eqn:Hc.
+    inversion H; subst. eapply cinv_sco_complete; [|eassumption]. same_tables.
+  - (* MLmpRemoveSco *) unfold on_lmp_remove_sco in H.
+    destruct (tbl_get (c_sco c) sender); inversion H; subst; [now apply cinv_del_sco | assumption].
+Qed.
+
+Lemma disconnect_cases : forall cs i c h r c' e o, disconnect cs i c h r = (c', e, o) ->
+  c' = c \/ (exists k, c' = set_cl c (tbl_del (c_cl c) (k_peer k)))
+  \/ (exists k, c' = set_le c (tbl_del (c_le c) (k_peer k)))
+  \/ (exists k, c' = set_sco c (tbl_del (c_sco c) (k_peer k))).
+Proof.
+  intros cs i c h r c' e o H. unfold disconnect in H.
+  destruct (conn_by_handle c h); destruct (by_handle (c_cl c) h); destruct (by_handle (c_le c) h);
+    destruct (by_handle (c_sco c) h); inversion H; subst; eauto 6.
 Qed.
 
 Lemma cinv_local : forall cs n i c l c' e o, cinv c -> local cs n i c l = (c', e, o) -> cinv c'.
@@ -447,20 +538,27 @@ Proof.
   - (* LAcl *) unfold send_acl in H. destruct (conn_by_handle c h) as [[[|] k]|]; [| |inversion H; subst; assumption].
     + destruct (find_le cs (k_peer k)); inversion H; subst; assumption.
     + destruct (find_classic cs (k_peer k)); inversion H; subst; assumption.
-  - (* LDisconnect *) unfold disconnect in H. destruct (conn_by_handle c h); [|inversion H; subst; assumption].
-    destruct (by_handle (c_cl c) h) as [k|].
-    + inversion H; subst. now apply cinv_del_cl.
-    + destruct (by_handle (c_le c) h) as [k|]; inversion H; subst; [now apply cinv_del_le | assumption].
+  - (* LDisconnect *) destruct (disconnect_cases _ _ _ _ _ _ _ _ H) as [->|[[k ->]|[[k ->]|[k ->]]]];
+      [assumption | now apply cinv_del_cl | now apply cinv_del_le | now apply cinv_del_sco].
   - (* LClConnect *) unfold cl_connect in H. destruct (c_pending c); [inversion H; subst; assumption|].
     match type of H with (if ?b then _ else _) = _ => destruct b end; [inversion H; subst; assumption|].
     assert (I1 : cinv (set_cl c (tbl_set (c_cl c) (mkConn peer (c_public c) 0 true)))) by (apply cinv_set_cl; auto).
     destruct (find_classic cs peer); inversion H; subst.
     + eapply cinv_same_tables with (c := set_cl c (tbl_set (c_cl c) (mkConn peer (c_public c) 0 true)));
-        [reflexivity | reflexivity | exact I1].
-    + apply (cinv_del_cl _ peer) in I1. eapply cinv_same_tables; [| | exact I1]; reflexivity.
+        [reflexivity | reflexivity | reflexivity | reflexivity | exact I1].
+    + apply (cinv_del_cl _ peer) in I1. eapply cinv_same_tables; [| | | | exact I1]; reflexivity.
   - (* LClAccept *) unfold cl_accept in H. destruct (tbl_get (c_cl c) peer); [|inversion H; subst; assumption].
     destruct (classic_complete c peer) as [c1 e1] eqn:Hc. inversion H; subst.
     eapply cinv_classic_complete; eassumption.
+  - (* LScoSetup *) unfold sco_setup in H. destruct (conn_by_handle c h) as [[b k]|]; inversion H; subst;
+      [same_tables | assumption].
+  - (* LScoAccept *) unfold sco_accept in H. destruct (tbl_get (c_cl c) peer); [|inversion H; subst; assumption].
+    destruct (sco_complete c peer) as [c1 e1] eqn:Hc. inversion H; subst.
+    eapply cinv_sco_complete; eassumption.
+  - (* LSetCig *) unfold set_cig in H.
+    destruct (add_cis (set_cis c (filter (not_cig cig) (c_cis c))) cig cis) as [[c1 hs] ok] eqn:Ha.
+    inversion H; subst. eapply cinv_add_cis; [|exact Ha]. now apply cinv_cis_filter.
+  - (* LRemoveCig *) inversion H; subst. now apply cinv_cis_filter.
 Qed.
 
 (* ================================================================== address discipline *)
@@ -479,7 +577,8 @@ Proof. unfold addr_same, owns. intros c c' a [-> ->]. tauto. Qed.
 Definition msg_ok (c : ctrl) (m : msg) : Prop :=
   match m with
   | MAdv a _ _ | MConnInd a _ | MTerm a _ | MAcl a true _ => owns c a
-  | MAcl a false _ | MLmpConnReq a | MLmpAccepted a | MLmpDetach a _ => a = c_public c
+  | MAcl a false _ | MLmpConnReq a | MLmpAccepted a | MLmpDetach a _
+  | MLmpEscoReq a | MLmpAcceptedEsco a | MLmpRemoveSco a _ => a = c_public c
   end.
 
 Lemma msg_ok_same : forall c c' m, addr_same c c' -> msg_ok c m -> msg_ok c' m.
@@ -631,6 +730,15 @@ Proof.
   - (* MLmpDetach *) unfold on_lmp_detach in H.
     destruct (tbl_get (c_cl c) sender); inversion H; subst; (split; [split; reflexivity|]); (split; [|intros s d x []]);
       [keep_ainv | assumption].
+  - (* MLmpEscoReq *) unfold on_lmp_esco_req in H. inversion H; subst. split; [split; reflexivity|].
+    split; [keep_ainv | intros s d x []].
+  - (* MLmpAcceptedEsco *) unfold on_lmp_accepted_esco in H.
+    destruct (lmp_get (c_lmp_sco c) sender) as [[|]|]; try (inversion H; subst; trivial_msg).
+    unfold sco_complete in H. destruct (alloc _); inversion H; subst; (split; [split; reflexivity|]);
+      (split; [keep_ainv | intros s d x []]).
+  - (* MLmpRemoveSco *) unfold on_lmp_remove_sco in H.
+    destruct (tbl_get (c_sco c) sender); inversion H; subst; (split; [split; reflexivity|]); (split; [|intros s d x []]);
+      [keep_ainv | assumption].
 Qed.
 
 Definition static_c (c : ctrl) (l : label) : Prop :=
@@ -655,6 +763,16 @@ Qed.
 Ltac put_set I :=
   apply ainv_sets; [exact I|]; simpl; intros ? Hs_; apply set_put_in in Hs_; destruct Hs_ as [->|Hs_];
   [| exact (ai_sets _ I _ Hs_)].
+
+Lemma add_cis_same : forall cis c cig c' hs ok, add_cis c cig cis = (c', hs, ok) ->
+  addr_same c c' /\ c_le c' = c_le c /\ c_sets c' = c_sets c.
+Proof.
+  induction cis as [|x cis IH]; simpl; intros c cig c' hs ok H.
+  - inversion H; subst. repeat split; reflexivity.
+  - destruct (alloc c) as [h|]; [|inversion H; subst; repeat split; reflexivity].
+    destruct (add_cis (set_cis c (c_cis c ++ [(h, cig, x)])) cig cis) as [[c1 hs1] ok1] eqn:Hr.
+    inversion H; subst. apply IH in Hr. exact Hr.
+Qed.
 
 Lemma local_ainv : forall cs n i c l c' e o, ainv c -> static_c c l -> local cs n i c l = (c', e, o) ->
   addr_same c c' /\ ainv c' /\ (forall s d x, In (s, d, x) o -> s = i /\ msg_ok c x).
@@ -713,16 +831,15 @@ Proof.
     + destruct (find_classic cs (k_peer k)); inversion H; subst; [|trivial_msg].
       split; [split; reflexivity|]. split; [assumption|].
       intros ps pd px [Hin|[]]. inversion Hin; subst. split; reflexivity.
-  - (* LDisconnect *) unfold disconnect in H. destruct (conn_by_handle c h); [|inversion H; subst; trivial_msg].
-    destruct (by_handle (c_cl c) h) as [k|].
-    + inversion H; subst. split; [split; reflexivity|]. split; [keep_ainv|].
-      intros ps pd px Hin. destruct (find_classic cs (k_peer k)); [|contradiction].
-      destruct Hin as [Hin|[]]. inversion Hin; subst. split; reflexivity.
-    + destruct (by_handle (c_le c) h) as [k|] eqn:Bh; [|inversion H; subst; trivial_msg].
-      inversion H; subst. split; [split; reflexivity|]. split; [now apply ainv_le_del|].
-      intros ps pd px Hin. destruct (find_le cs (k_peer k)); [|contradiction].
-      destruct Hin as [Hin|[]]. inversion Hin; subst. split; [reflexivity|]. simpl.
-      apply by_handle_in in Bh. exact (ai_self c I _ (proj1 Bh)).
+  - (* LDisconnect *) unfold disconnect in H.
+    destruct (conn_by_handle c h); destruct (by_handle (c_cl c) h) as [k1|]; destruct (by_handle (c_le c) h) as [k2|] eqn:Bh;
+      destruct (by_handle (c_sco c) h) as [k3|]; inversion H; subst; try trivial_msg;
+      (split; [split; reflexivity|]); (split; [first [keep_ainv | now apply ainv_le_del]|]);
+      intros ps pd px Hin;
+      try (destruct (find_classic cs (k_peer k1)); [|contradiction]; destruct Hin as [Hin|[]]; inversion Hin; subst; split; reflexivity);
+      try (destruct (find_classic cs (k_peer k3)); [|contradiction]; destruct Hin as [Hin|[]]; inversion Hin; subst; split; reflexivity);
+      (destruct (find_le cs (k_peer k2)); [|contradiction]; destruct Hin as [Hin|[]]; inversion Hin; subst;
+       split; [reflexivity|]; simpl; apply by_handle_in in Bh; exact (ai_self c I _ (proj1 Bh))).
   - (* LClConnect *) unfold cl_connect in H. destruct (c_pending c); [inversion H; subst; trivial_msg|].
     match type of H with (if ?b then _ else _) = _ => destruct b end; [inversion H; subst; trivial_msg|].
     destruct (find_classic cs peer); inversion H; subst.
@@ -735,6 +852,20 @@ Proof.
     split; [exact Ha|]. split; [eapply ainv_same_le_sets; eauto|].
     intros ps pd px Hin. destruct (find_classic cs peer); [|contradiction].
     destruct Hin as [Hin|[]]. inversion Hin; subst. split; reflexivity.
+  - (* LScoSetup *) unfold sco_setup in H. destruct (conn_by_handle c h) as [[b k]|]; inversion H; subst; [|trivial_msg].
+    split; [split; reflexivity|]. split; [keep_ainv|].
+    intros ps pd px Hin. destruct (find_classic cs (k_peer k)); [|contradiction].
+    destruct Hin as [Hin|[]]. inversion Hin; subst. split; reflexivity.
+  - (* LScoAccept *) unfold sco_accept in H. destruct (tbl_get (c_cl c) peer); [|inversion H; subst; trivial_msg].
+    unfold sco_complete in H. destruct (alloc c); inversion H; subst; (split; [split; reflexivity|]);
+      (split; [first [keep_ainv | assumption]|]);
+      intros ps pd px Hin; (destruct (find_classic cs peer); [|contradiction]);
+      destruct Hin as [Hin|[]]; inversion Hin; subst; split; reflexivity.
+  - (* LSetCig *) unfold set_cig in H.
+    destruct (add_cis (set_cis c (filter (not_cig cig) (c_cis c))) cig cis) as [[c1 hs] ok] eqn:Ha.
+    inversion H; subst. apply add_cis_same in Ha. destruct Ha as [Ha [Hle Hse]].
+    split; [exact Ha|]. split; [eapply ainv_same_le_sets; eauto; keep_ainv | intros ? ? ? []].
+  - (* LRemoveCig *) inversion H; subst. split; [split; reflexivity|]. split; [keep_ainv | intros ? ? ? []].
   - (* LDeliver *) inversion H; subst. trivial_msg.
 Qed.
 
@@ -969,7 +1100,7 @@ Proof.
   apply by_handle_in in B. destruct B as [B1 B2]. exfalso.
   pose proof (ci_le_pos c I k Hk) as Hpos.
   assert (Hne : h <> 0) by lia. pose proof (ci_distinct c I h Hne) as Hd.
-  unfold handles in Hd. rewrite count_app in Hd.
+  unfold handles in Hd. rewrite !count_app in Hd.
   assert (1 <= count h (map k_handle (c_le c)))%nat by (apply count_pos_in; rewrite <- Hh; now apply in_map).
   assert (1 <= count h (map k_handle (c_cl c)))%nat by (apply count_pos_in; rewrite <- B2; now apply in_map).
   lia.
@@ -986,7 +1117,7 @@ Proof.
     pose proof (count_two _ _ _ B1 Hk Hne B2) as H2.
     pose proof (ci_le_pos c I k Hk) as Hpos.
     assert (Hnz : k_handle k2 <> 0) by lia.
-    pose proof (ci_distinct c I _ Hnz) as Hd. unfold handles in Hd. rewrite count_app in Hd. lia.
+    pose proof (ci_distinct c I _ Hnz) as Hd. unfold handles in Hd. rewrite !count_app in Hd. lia.
   - exfalso. eapply by_handle_none; eauto.
 Qed.
 
@@ -1035,7 +1166,7 @@ Proof.
   assert (Hle : by_handle (c_le ci) (k_handle e) = None).
   { destruct (by_handle (c_le ci) (k_handle e)) as [k2|] eqn:B; [|reflexivity]. exfalso.
     apply by_handle_in in B. destruct B as [B1 B2].
-    pose proof (ci_distinct ci Ci _ Hnz) as Hd. unfold handles in Hd. rewrite count_app in Hd.
+    pose proof (ci_distinct ci Ci _ Hnz) as Hd. unfold handles in Hd. rewrite !count_app in Hd.
     assert (1 <= count (k_handle e) (map k_handle (c_le ci)))%nat by (apply count_pos_in; rewrite <- B2; now apply in_map).
     assert (1 <= count (k_handle e) (map k_handle (c_cl ci)))%nat by (apply count_pos_in; now apply in_map).
     lia. }
@@ -1045,7 +1176,7 @@ Proof.
     apply by_handle_in in B. destruct B as [B1 B2].
     destruct (conn_eq_dec k2 e) as [->|Hne]; [reflexivity|]. exfalso.
     pose proof (count_two _ _ _ B1 He Hne B2) as H2. rewrite B2 in H2.
-    pose proof (ci_distinct ci Ci _ Hnz) as Hd. unfold handles in Hd. rewrite count_app in Hd. lia. }
+    pose proof (ci_distinct ci Ci _ Hnz) as Hd. unfold handles in Hd. rewrite !count_app in Hd. lia. }
   rewrite Hcl. rewrite <- Hm. rewrite (find_classic_owner s j cj I Hj).
   rewrite (upd_id _ _ _ Hi). reflexivity.
 Qed.
@@ -1074,7 +1205,9 @@ Ltac no_ev Hin :=
 Ltac unfold_handlers H :=
   unfold tick, ext_tick, send_acl, conn_by_handle, disconnect, cl_connect, cl_accept, classic_complete,
          on_adv, create_le_connection, on_connect_ind, on_terminate, on_acl, on_lmp_conn_req,
-         on_lmp_accepted, on_lmp_detach, classic_complete in H.
+         on_lmp_accepted, on_lmp_detach, classic_complete, sco_setup, sco_accept, sco_complete, set_cig,
+         on_lmp_esco_req, on_lmp_accepted_esco, on_lmp_remove_sco in H;
+  unfold sco_complete, classic_complete in H.
 
 Lemma local_no_acl : forall cs n i c l c' e o h d, local cs n i c l = (c', e, o) -> ~ In (EAcl h d) e.
 Proof.
@@ -1252,7 +1385,7 @@ Proof.
   assert (Hle0 : by_handle (c_le ci) (k_handle e) = None).
   { destruct (by_handle (c_le ci) (k_handle e)) as [k2|] eqn:B; [|reflexivity]. exfalso.
     apply by_handle_in in B. destruct B as [B1 B2].
-    pose proof (ci_distinct ci Ci _ Hnz) as Hd. unfold handles in Hd. rewrite count_app in Hd.
+    pose proof (ci_distinct ci Ci _ Hnz) as Hd. unfold handles in Hd. rewrite !count_app in Hd.
     assert (1 <= count (k_handle e) (map k_handle (c_le ci)))%nat by (apply count_pos_in; rewrite <- B2; now apply in_map).
     assert (1 <= count (k_handle e) (map k_handle (c_cl ci)))%nat by (apply count_pos_in; now apply in_map).
     lia. }
@@ -1262,7 +1395,7 @@ Proof.
     apply by_handle_in in B. destruct B as [B1 B2].
     destruct (conn_eq_dec k2 e) as [->|Hne]; [reflexivity|]. exfalso.
     pose proof (count_two _ _ _ B1 He Hne B2) as H2. rewrite B2 in H2.
-    pose proof (ci_distinct ci Ci _ Hnz) as Hd. unfold handles in Hd. rewrite count_app in Hd. lia. }
+    pose proof (ci_distinct ci Ci _ Hnz) as Hd. unfold handles in Hd. rewrite !count_app in Hd. lia. }
   rewrite Hcl. rewrite <- Hm. rewrite (find_classic_owner s j cj I Hj). rewrite Hm. reflexivity.
 Qed.
 
@@ -1275,6 +1408,74 @@ Theorem detach_deliver : forall s k i j cj a r e', nth_error (st_net s) k = Some
 Proof.
   intros s k i j cj a r e' Hk Hf Hj He. unfold step. rewrite Hk, Hf, Hj. simpl. unfold on_lmp_detach. rewrite He.
   simpl. rewrite app_nil_r. reflexivity.
+Qed.
+
+(* ------------------------------------------------------------------ SCO / eSCO links *)
+(* a non-zero handle belongs to exactly one link of the controller, whatever its kind *)
+Lemma sco_handle_owner : forall c k, cinv c -> In k (c_sco c) -> k_handle k <> 0 ->
+  by_handle (c_le c) (k_handle k) = None /\ by_handle (c_cl c) (k_handle k) = None /\
+  by_handle (c_sco c) (k_handle k) = Some k.
+Proof.
+  intros c k I Hk Hnz. pose proof (ci_distinct c I _ Hnz) as Hd. unfold handles in Hd. rewrite !count_app in Hd.
+  assert (Hs : (1 <= count (k_handle k) (map k_handle (c_sco c)))%nat) by (apply count_pos_in; now apply in_map).
+  repeat split.
+  - destruct (by_handle (c_le c) (k_handle k)) as [k2|] eqn:B; [|reflexivity]. exfalso.
+    apply by_handle_in in B. destruct B as [B1 B2].
+    assert (1 <= count (k_handle k) (map k_handle (c_le c)))%nat by (apply count_pos_in; rewrite <- B2; now apply in_map). lia.
+  - destruct (by_handle (c_cl c) (k_handle k)) as [k2|] eqn:B; [|reflexivity]. exfalso.
+    apply by_handle_in in B. destruct B as [B1 B2].
+    assert (1 <= count (k_handle k) (map k_handle (c_cl c)))%nat by (apply count_pos_in; rewrite <- B2; now apply in_map). lia.
+  - destruct (by_handle (c_sco c) (k_handle k)) as [k2|] eqn:B; [|exfalso; eapply by_handle_none; eauto].
+    apply by_handle_in in B. destruct B as [B1 B2].
+    destruct (conn_eq_dec k2 k) as [->|Hne]; [reflexivity|]. exfalso.
+    pose proof (count_two _ _ _ B1 Hk Hne B2) as H2. rewrite B2 in H2. lia.
+Qed.
+
+(* Disconnect on the handle of an established SCO / eSCO link concludes that link and no
+   other: the local host is told, the entry leaves sco_links (the ACL and LE tables and the CIS
+   links are untouched), one LMP remove request goes to the peer's controller. *)
+Theorem disconnect_sco : forall s i j ci cj e r, ginv s ->
+  nth_error (st_cs s) i = Some ci -> In e (c_sco ci) -> k_handle e <> 0 ->
+  nth_error (st_cs s) j = Some cj -> c_public cj = k_peer e ->
+  step s (LDisconnect i (k_handle e) r) =
+    (mkState (upd (st_cs s) i (set_sco ci (tbl_del (c_sco ci) (k_peer e))))
+             (st_net s ++ [(i, j, MLmpRemoveSco (c_public ci) r)]),
+     [(i, EStatus 0); (i, EDisc (k_handle e) r)], [(i, j, MLmpRemoveSco (c_public ci) r)]).
+Proof.
+  intros s i j ci cj e r I Hi He Hnz Hj Hm.
+  destruct (g_c s I _ _ Hi) as [Ci Ai].
+  destruct (sco_handle_owner ci e Ci He Hnz) as [H1 [H2 H3]].
+  unfold step. simpl label_ctrl. cbv iota. rewrite Hi. simpl local. unfold disconnect, conn_by_handle.
+  rewrite H1, H2, H3. rewrite <- Hm. rewrite (find_classic_owner s j cj I Hj). rewrite Hm. reflexivity.
+Qed.
+
+Theorem remove_sco_deliver : forall s k i j cj a r e', nth_error (st_net s) k = Some (i, j, MLmpRemoveSco a r) ->
+  existsb (same_pair i j) (firstn k (st_net s)) = false ->
+  nth_error (st_cs s) j = Some cj -> tbl_get (c_sco cj) a = Some e' ->
+  step s (LDeliver k) =
+    (mkState (upd (st_cs s) j (set_sco cj (tbl_del (c_sco cj) a))) (remove_nth k (st_net s)),
+     [(j, EDisc (k_handle e') r)], []).
+Proof.
+  intros s k i j cj a r e' Hk Hf Hj He. unfold step. rewrite Hk, Hf, Hj. simpl. unfold on_lmp_remove_sco. rewrite He.
+  simpl. rewrite app_nil_r. reflexivity.
+Qed.
+
+(* deleting the entry of k removes k and nothing else *)
+Lemma tbl_del_only : forall t k x, keys_nodup t -> In k t ->
+  (In x (tbl_del t (k_peer k)) <-> In x t /\ x <> k).
+Proof.
+  unfold keys_nodup. induction t as [|k0 t IH]; simpl; intros k x Hnd Hk; [contradiction|].
+  inversion Hnd as [|? ? Hni Hnd']; subst.
+  destruct (k_peer k0 =? k_peer k) eqn:E.
+  - apply Z.eqb_eq in E. destruct Hk as [->|Hk].
+    + split.
+      * intros Hx. split; [now right|]. intros ->. apply Hni. now apply in_map.
+      * intros [[->|Hx] Hne]; [congruence | assumption].
+    + exfalso. apply Hni. rewrite E. now apply in_map.
+  - apply Z.eqb_neq in E. destruct Hk as [->|Hk]; [congruence|]. simpl. rewrite (IH k x Hnd' Hk).
+    split.
+    + intros [->|[Hx Hne]]; [split; [now left | intros ->; congruence] | split; [now right | assumption]].
+    + intros [[->|Hx] Hne]; [now left | right; auto].
 Qed.
 
 (* ================================================================== the link is FIFO per pair *)
